@@ -10,6 +10,9 @@
 # With MUTANT_KEEP=<dir>, replay files of reported violations are copied there.
 # (MUTANT_INPLACE=1 uses `git -C /repo apply` / `git -C /repo checkout -- .`
 # instead, exactly as the final evaluation would.)
+# MUTANT_SNAPSHOT=<dir>: run <dir>/check (a frozen copy of /verif made with
+# `rsync -a --exclude target --exclude .git /verif/ <dir>/`) instead of
+# /verif/check, so that /verif can be edited while a batch is running.
 set -u
 patch="$(readlink -f "$1")"; shift
 id="$$"
@@ -40,7 +43,7 @@ rsync -a --exclude target --exclude .git /repo/ "$copy/"
 find "$copy" -type f \( -name '*.rs' -o -name '*.toml' \) -exec touch {} +
 trap 'rm -rf "$copy" "$out"' EXIT
 for p in "$@"; do
-  unshare -m bash -c "mount --bind '$copy' /repo && VERIF_OUT_DIR='$out' VERIF_TARGET_DIR='$tdir' /verif/check $p ${MUTANT_ARGS:-}" >"$out/$p.log" 2>&1
+  unshare -m bash -c "mount --bind '$copy' /repo && VERIF_OUT_DIR='$out' VERIF_TARGET_DIR='$tdir' ${MUTANT_SNAPSHOT:-/verif}/check $p ${MUTANT_ARGS:-}" >"$out/$p.log" 2>&1
   rc=$?
   v=$(grep -m1 "^VIOLATION" "$out/$p.log" || true)
   o=$(grep -m1 "oracle\|HARNESS" "$out/$p.log" | head -c 300 || true)
